@@ -126,6 +126,38 @@ func TestVerifDriver(t *testing.T) {
 				m := append([]byte{}, s...)
 				m[i] = tryteAlphabet[c]
 				emit("migration.Decode", M{"trytes": vInts(m)})
+				if (i*27+c)%7 == k%7 { // what a rejected call leaves behind must not matter: the valid string and the encoder right after it
+					emit("migration.Decode", M{"trytes": vInts(s)})
+					emit("migration.Encode", M{"addr": vInts(a[:])})
+				}
+			}
+		}
+		// a group outside the code words at each position of the checksum part, each followed by valid calls
+		for i := 72; i+1 < 80; i++ {
+			for _, pair := range []string{"MM", "NN", "ZM"} {
+				m := append([]byte{}, s...)
+				m[i], m[i+1] = pair[0], pair[1]
+				emit("migration.Decode", M{"trytes": vInts(m)})
+				emit("migration.Encode", M{"addr": vInts(a[:])})
+				emit("migration.Decode", M{"trytes": vInts(s)})
+			}
+		}
+		// every length: the valid string cut short, and extended (random trytes, then the suffix) - among them the
+		// lengths other tryte formats have (hash 81, hash with checksum 90, 243)
+		for _, L := range append([]int{90, 243, 162, 99, 2673}, func() []int { var a []int; for l := 0; l <= 100; l++ { a = append(a, l) }; return a }()...) {
+			var m []byte
+			if L <= len(s) {
+				m = append(m, s[:L]...)
+			} else {
+				m = append(m, s[:80]...)
+				for len(m) < L-1 {
+					m = append(m, tryteAlphabet[r.Intn(27)])
+				}
+				m = append(m, '9')
+			}
+			emit("migration.Decode", M{"trytes": vInts(m)})
+			if L > len(s) { // the whole valid string in front
+				emit("migration.Decode", M{"trytes": vInts(append(append([]byte{}, s...), m[len(s):]...))})
 			}
 		}
 		emit("migration.Decode", M{"trytes": vInts(s)})
